@@ -469,6 +469,124 @@ def rec_twin(k: int) -> bool:
 '''
 
 
+PARENT = r'''
+from pynenc.invocation.status import InvocationStatus as St
+import pynenc.orchestrator.mem_orchestrator as mo, pynenc.orchestrator.sqlite_orchestrator as so
+
+class SharedClock:
+    """one clock for the orchestrators, the runner modules and time.sleep stand-ins"""
+    def __init__(self):
+        self.now = 1_700_000_000.0
+    def time(self):
+        return self.now
+    def sleep(self, s):
+        self.now += s
+    def __call__(self):
+        return self.now
+SCLOCK = SharedClock()
+standins.patch_clock(SCLOCK, mo, so)
+for _m in (ppr, mtr, prr, brr):
+    _m.time = SCLOCK
+DEAD_AFTER_S = 12.0
+
+def parent_reports(kind, rk, deltas, die_at):
+    """a parent runner with (stand-in) child processes loops; the clock advances by deltas[i] before iteration i; child 0 owns a RUNNING
+    invocation and dies before iteration `die_at` (never if die_at >= len(deltas)). Recovery must not select the invocation while the
+    child is alive and the parent keeps looping; it must select it once the child is dead for longer than the timeout."""
+    global LAST_DETAIL
+    reset_uuid()
+    FakeProcess.seq = 0
+    CPU[0] = 2
+    SCLOCK.now = 1_700_000_000.0
+    conf = [{"num_processes": 2, "runner_cls": "PersistentProcessRunner"},
+            {"max_processes": 2, "min_processes": 2, "enforce_max_processes": True, "runner_cls": "MultiThreadRunner"}][rk]
+    app = mk_app(kind, app_id=f"c04par{kind}{rk}", runner_considered_dead_after_minutes=DEAD_AFTER_S / 60.0, **conf)
+    task = app.task(body); warm_task(task)
+    cls = [ppr.PersistentProcessRunner, mtr.MultiThreadRunner][rk]
+    runner = cls(app)
+    runner.conf
+    runner.running = True
+    runner._on_start()
+    o = app.orchestrator
+    kids = procs_of(runner)
+    child_id, child_proc = kids[0]
+    inv = new_invocations(app, task, 1)[0]
+    cctx = runner_ctx(child_id)
+    o.register_runner_heartbeats([child_id])                  # the child announced itself when it started
+    for st in (St.PENDING, St.RUNNING):
+        o.set_invocation_status(inv.invocation_id, st, cctx)
+    log = []
+    died_at_time = None
+    for i, d in enumerate(deltas):
+        SCLOCK.now += d
+        if i == die_at:
+            child_proc.alive = False
+            died_at_time = SCLOCK.now
+        runner._report_child_runner_heartbeats()
+        selected = inv.invocation_id in set(o.get_running_invocations_for_recovery())
+        log.append((i, d, child_proc.is_alive(), selected))
+        if child_proc.is_alive() and selected:
+            LAST_DETAIL = {"kind": kind, "runner": cls.__name__, "deltas": deltas, "die_at": die_at, "log": log,
+                           "why": "C04:recovery-selects-work-of-a-live-child-whose-parent-keeps-reporting"}
+            return False
+        runner.runner_loop_iteration()
+    if died_at_time is not None:
+        SCLOCK.now = max(SCLOCK.now, died_at_time) + DEAD_AFTER_S + 1
+        runner._report_child_runner_heartbeats()
+        if inv.invocation_id not in set(o.get_running_invocations_for_recovery()):
+            LAST_DETAIL = {"kind": kind, "runner": cls.__name__, "deltas": deltas, "die_at": die_at, "log": log,
+                           "why": "C04:work-of-a-dead-child-never-becomes-recoverable"}
+            return False
+    LAST_DETAIL = {"log": log}
+    return True
+
+DELTAS = [1.0, 5.0, 11.0]
+
+def parent___KIND_____RK__(d1: int, d2: int, d3: int, d4: int, die_at: int) -> bool:
+    """
+    pre: 0 <= d1 <= 2 and 0 <= d2 <= 2 and 0 <= d3 <= 2 and 0 <= d4 <= 2 and 0 <= die_at <= 4
+    post: _
+    """
+    ds = [DELTAS[pick(x, 0, 2)] for x in (d1, d2, d3, d4)]
+    die_at = pick(die_at, 0, 4)
+    with NoTracing():
+        return parent_reports(["mem", "sqlite"][__KIND__], __RK__, ds, die_at)
+'''
+
+PARENTX = r'''
+def parent_twin(d1: int, die_at: int) -> bool:
+    """
+    pre: 0 <= d1 <= 2 and 0 <= die_at <= 2
+    post: _
+    """
+    d = DELTAS[pick(d1, 0, 2)]; die_at = pick(die_at, 0, 2)
+    with NoTracing():
+        parent_reports("mem", 0, [d, d], die_at)
+    return False
+
+def parent_canary_throttled(d1: int, d2: int, d3: int) -> bool:
+    """
+    pre: 0 <= d1 <= 2 and 0 <= d2 <= 2 and 0 <= d3 <= 2
+    post: _
+    """
+    # canary: a parent that reports its children only every 30 s must be refuted (a live child's work gets selected)
+    orig = brr.BaseRunner._report_child_runner_heartbeats
+    state = {"last": 0.0}
+    def throttled(self):
+        if SCLOCK.now - state["last"] < 30.0:
+            return
+        state["last"] = SCLOCK.now
+        return orig(self)
+    brr.BaseRunner._report_child_runner_heartbeats = throttled
+    ds = [DELTAS[pick(x, 0, 2)] for x in (d1, d2, d3)]
+    try:
+        with NoTracing():
+            return parent_reports("mem", 0, ds, 9)
+    finally:
+        brr.BaseRunner._report_child_runner_heartbeats = orig
+'''
+
+
 def _key_from_replay(args, kwargs, replay_out):
     m = re.search(r"'why': '([^']+)'", replay_out or "")
     return m.group(1) if m else "C04:unclassified"
@@ -501,12 +619,27 @@ def run(ctx: Ctx) -> None:
     src += RECX.replace("KMAX", str(kmax))
     conds.append(Cond("rec_twin", "refute", 60))
     ctx.ch_batch("c04rec", src, conds)
-    ctx.functions_encoded += ["MemOrchestrator.get_pending_invocations_for_recovery/_get_running_invocations_for_recovery (traced on a symbolic state)",
+    # heartbeats reported by a parent runner on behalf of its live children (runner level, process stand-ins of C14)
+    from props import C14
+    head = C14.SRC.split("def scenario(kind, cap, enforce, minp, queue, masks):")[0]
+    phead, pf = PARENT.split("def parent___KIND_____RK__")
+    pf = "def parent___KIND_____RK__" + pf
+    psrc, pconds = head + phead, []
+    for kind in (0, 1):
+        for rk in (0, 1):
+            psrc += pf.replace("__KIND__", str(kind)).replace("__RK__", str(rk))
+            pconds.append(Cond(f"parent_{kind}_{rk}", "confirm", 900, keyfn=_key_from_replay))
+    psrc += PARENTX
+    pconds += [Cond("parent_twin", "refute", 60), Cond("parent_canary_throttled", "refute", 120)]
+    ctx.ch_batch("c04parent", psrc, pconds)
+    ctx.functions_encoded += ["BaseRunner._report_child_runner_heartbeats + get_active_child_runner_ids of PersistentProcessRunner / MultiThreadRunner with process stand-ins, against the real recovery scan",
+                              "MemOrchestrator.get_pending_invocations_for_recovery/_get_running_invocations_for_recovery (traced on a symbolic state)",
                               "Mem/SQLite register_runner_heartbeats/_get_active_runners/get_running_invocations_for_recovery (heartbeat histories)",
                               "core_tasks.recover_pending_invocations/recover_running_invocations (line-level twins) + set_invocation_status/reroute_invocations twins"]
     ctx.bounds = {"sql": "one invocation row (status in {PENDING, RUNNING, other}, owner in {NULL, r1, r2}), two heartbeat rows (present/absent), clock, limits: unbounded reals",
                   "mem scans": "2 invocations, 2 runners, symbolic integer-valued timestamps/heartbeats/clock in [-1e12, 1e12], limits in [0, 1e9]: every boundary (age == limit) is exact, no rounding",
                   "heartbeat histories": "3 ops (thorough: 4) over 8 letters (heartbeat r1/r2 with either atomic-service flag, clock advance 0/30/60/61 s; timeout 60 s)",
+                  "parent reports": "parent runner (PersistentProcess / MultiThread) with 2 stand-in children, 4 loop iterations with the clock advancing 1 / 5 / 11 s before each (timeout 12 s), the child that owns a RUNNING invocation dies before iteration 0..3 or never; both backends",
                   "recovery run": f"3 invocations (thorough: 2-3), any subset fresh, owner moves one of them (PENDING->RUNNING/KILLED or RUNNING->SUCCESS/KILLED) at preemption point 0..{kmax}; both backends"}
     ctx.stubs += ["mem scans run on a SimpleNamespace `self` with symbolic integer-valued instants (the claim is in exact arithmetic; one rounding of `now` in doubles is outside it)", "clock = CounterClock in both orchestrator modules",
                   "status timestamps forced by direct state construction", "CoopLock, sqlite timeout=0, sync history"]
